@@ -399,7 +399,9 @@ class Roles:
                 if b.coroutine or b.kind == "Closure":
                     continue
                 at = b.prov.atoms(0, interproc=False)
-                if any(".checksums" in c for c in atom_consts(at)):
+                # (the extension may be a named constant: `format!("{}.{}", id, CHECKSUMS_FILE_EXTENSION)`)
+                named = [(self.f.const_value(a[1].split("::")[-1]) or "").strip('"') for a in at if a[0] == "constdef"]
+                if "Path" in b.ret and (any(".checksums" in c for c in atom_consts(at)) or any(c in ("checksums", ".checksums") for c in named)):
                     out.append(b)
             return out
         return self._memo("state_path", go)
